@@ -26,6 +26,8 @@ def gen_scenario(rng, tier, prepop_kinds=()):
         layout = rng.choice(["single", "flat", "flat", "nested", "nested", "empties", "boundary", "samebase"])
         if rng.random() < 0.06:
             layout = "large"
+        elif rng.random() < 0.03:
+            layout = "utf8hash"
         if layout == "boundary":
             n = rng.randint(2, 5)
             files = [[f"b{j}", rng.choice([pl, 2 * pl, 3 * pl, pl, 2 * pl + rng.choice([0, 0, 9, 1]), 77]),
@@ -35,6 +37,17 @@ def gen_scenario(rng, tier, prepop_kinds=()):
             files = [["sub/big.bin", rng.choice([1 << 20, (1 << 20) + 12345, 3 * (1 << 20) + 7, 2 * (1 << 20)]) +
                       rng.choice([0, 1, 4096]), rng.randrange(1 << 30)], ["small.txt", rng.choice([0, 40000, 77]), rng.randrange(1 << 30)]]
             tree = {"name": names[k], "single": False, "files": files, "dirs": [], "layout": "large"}
+        elif layout == "utf8hash":
+            # hash strings that are valid UTF-8 (a lenient decoder hands them over as text): SHA-1 of the whole
+            # single-piece payload for v1, SHA-256 root of a one-block file for v2 / hybrid
+            from .recheck_family import UTF8_SHA1_CONTENT, UTF8_SHA256_CONTENT
+            raw = "raw:" + (UTF8_SHA1_CONTENT if version == 1 else UTF8_SHA256_CONTENT)
+            if version == 1:
+                tree = {"name": names[k] + ".bin", "single": True, "files": [[names[k] + ".bin", len(raw) - 4, raw]],
+                        "dirs": [], "layout": "utf8hash"}
+            else:
+                tree = {"name": names[k], "single": False, "dirs": [], "layout": "utf8hash",
+                        "files": [["u.bin", len(raw) - 4, raw], ["other", 20000, rng.randrange(1 << 30)]]}
         elif layout == "samebase":
             size = rng.choice([5, pl, pl + 7, 20000])
             files = [["a/x", size, rng.randrange(1 << 30)], ["b/x", size if rng.random() < 0.6 else size + 3,
@@ -439,6 +452,8 @@ class C13:
             counters["search_path_is_a_file_cases"] = 1
         if world.get("edited_metafiles"):
             counters["edited_metafile_cases"] = 1
+        if any(t["tree"]["layout"] == "utf8hash" for t in case["torrents"]):
+            counters["utf8_valid_hash_cases"] = 1
         sizes = [f[1] for t in case["torrents"] for f in t["tree"]["files"]]
         if any(s and s % pl == 0 for s in sizes):
             counters["boundary_cases"] = 1
